@@ -565,3 +565,236 @@ pub fn ml_value(text: &str) -> Option<Vec<String>> {
     }
     Some(val)
 }
+
+// ---------------------------------------------------------------- C02: re-scan equality modulo documented normalisations
+
+fn is_word_kind(k: &str) -> bool {
+    k == "Identifier" || k.starts_with("Keyword(") || k.starts_with("IdentifierOrKeyword(")
+}
+
+/// candidates for the normalised form of a line comment
+fn line_comment_forms(t: &str) -> Vec<String> {
+    let trimmed = t.trim_end_matches([' ', '\t', '\n', '\r', '\x0c']);
+    let mut v = vec![trimmed.to_string()];
+    for p in ["///", "//"] {
+        if let Some(rest) = trimmed.strip_prefix(p) {
+            if rest.chars().next().is_some_and(|c| !c.is_ascii_whitespace()) {
+                v.push(format!("{p} {rest}"));
+            }
+            break;
+        }
+    }
+    v
+}
+
+pub fn c02_token_equal(kind: &str, a: &str, b: &str, fms: bool) -> bool {
+    if a == b {
+        return true;
+    }
+    if is_word_kind(kind) {
+        return is_keyword_word(a) && a.to_ascii_lowercase() == b;
+    }
+    if kind == "CompilerDirective" || kind.starts_with("ConditionalDirective(") {
+        if let Some((s, e)) = directive_name_range(a) {
+            return a.len() == b.len() && a[..s] == b[..s] && a[e..] == b[e..] && a[s..e].to_ascii_uppercase() == b[s..e];
+        }
+        return false;
+    }
+    if kind == "Comment(InlineLine)" || kind == "Comment(IndividualLine)" {
+        return line_comment_forms(a).iter().any(|f| f == b);
+    }
+    if kind == "TextLiteral(MultiLine)" && fms {
+        return match (ml_value(a), ml_value(b)) {
+            (Some(x), Some(y)) => x == y && ml_lines(a)[0] == ml_lines(b)[0],
+            _ => false,
+        };
+    }
+    false
+}
+
+pub fn c02(text: &str, tin: &[Tok], out: &str, tout: &[Tok], fms: bool) -> Option<Viol> {
+    if tin.len() != tout.len() {
+        let k = tin.iter().zip(tout).position(|(a, b)| a.kind != b.kind).unwrap_or(tin.len().min(tout.len()));
+        return v("C02", "token_count", format!("{} tokens scanned in the input, {} in the output; first kind difference at token {k}: {:?} {:?} vs {:?} {:?}",
+            tin.len(), tout.len(), tin.get(k).map(|t| &t.kind), tin.get(k).map(|t| t.text(text)), tout.get(k).map(|t| &t.kind), tout.get(k).map(|t| t.text(out))));
+    }
+    for (i, (a, b)) in tin.iter().zip(tout).enumerate() {
+        if a.kind != b.kind {
+            return v("C02", "kind", format!("token {i}: {} {:?} -> {} {:?}", a.kind, a.text(text), b.kind, b.text(out)));
+        }
+        if a.kind == "Eof" {
+            continue;
+        }
+        if !c02_token_equal(&a.kind, a.text(text), b.text(out), fms) {
+            return v("C02", "text", format!("token {i} {}: {:?} -> {:?}", a.kind, a.text(text), b.text(out)));
+        }
+    }
+    None
+}
+
+// ---------------------------------------------------------------- C05: structure marks
+
+pub struct LineInfo {
+    /// byte offset of the start of the line containing `pos`
+    pub start: usize,
+    pub indent: String,
+}
+
+pub fn line_of(out: &str, pos: usize) -> LineInfo {
+    let start = out[..pos].rfind('\n').map(|p| p + 1).unwrap_or(0);
+    let indent: String = out[start..].chars().take_while(|c| *c == ' ' || *c == '\t').collect();
+    LineInfo { start, indent }
+}
+
+/// marks: [kind, key, ref, delta, ordinal]; plain: the plain tokens of the output, in order
+pub fn c05(out: &str, plain: &[&Tok], marks: &[serde_json::Value], cfg: &Cfg) -> (Vec<Viol>, u64, u64) {
+    let mut res = vec![];
+    let (mut checked, mut skipped) = (0u64, 0u64);
+    let mut ord_of_key: std::collections::HashMap<u64, usize> = Default::default();
+    let mut mark_of_key: std::collections::HashMap<u64, (&str, u64)> = Default::default();
+    for m in marks {
+        ord_of_key.insert(m[1].as_u64().unwrap(), m[4].as_u64().unwrap() as usize);
+        mark_of_key.insert(m[1].as_u64().unwrap(), (m[0].as_str().unwrap(), m[2].as_u64().unwrap()));
+    }
+    let unit: usize = if cfg.use_tabs { 1 } else { cfg.tab_width as usize };
+    let first_on_line = |ord: usize| -> bool {
+        if ord == 0 {
+            return true;
+        }
+        out[plain[ord - 1].end()..plain[ord].content_start()].contains('\n')
+    };
+    // is the block opened by `key` (or any block around it) an anonymous routine that was kept on its parent's line?
+    let inline_anon = |mut key: u64| -> bool {
+        let mut guard = 0;
+        while key != 0 && guard < 10_000 {
+            guard += 1;
+            let Some((kind, refk)) = mark_of_key.get(&key) else { return false };
+            if *kind == "A" {
+                if let Some(&o) = ord_of_key.get(&key) {
+                    if o < plain.len() && !first_on_line(o) {
+                        return true;
+                    }
+                }
+            }
+            key = *refk;
+        }
+        false
+    };
+    for m in marks {
+        let kind = m[0].as_str().unwrap();
+        let (refk, delta, ord) = (m[2].as_u64().unwrap(), m[3].as_u64().unwrap() as usize, m[4].as_u64().unwrap() as usize);
+        if ord >= plain.len() {
+            continue;
+        }
+        let applies = matches!(kind, "S" | "D" | "C") || (kind == "B" && cfg.begin_style == "always_wrap");
+        if !applies {
+            continue;
+        }
+        let tok = plain[ord];
+        let what = match kind { "S" => "statement", "D" => "declaration", "C" => "block closer", _ => "begin" };
+        if !first_on_line(ord) {
+            let site = if inline_anon(refk) { " [site: inside an anonymous routine that is kept on its parent's line]" } else { "" };
+            res.push(Viol { prop: "C05", clause: "own_line", detail: format!("{what} {:?} (plain token {ord}) does not start its line: {:?}{site}", tok.text(out), context(out, tok.content_start())) });
+            continue;
+        }
+        let li = line_of(out, tok.content_start());
+        let pure = if cfg.use_tabs { li.indent.chars().all(|c| c == '\t') } else { li.indent.chars().all(|c| c == ' ') };
+        if !pure || unit == 0 {
+            skipped += 1;
+            continue;
+        }
+        // indentation of the opener's line
+        let base = if refk == 0 {
+            Some(0usize)
+        } else {
+            match ord_of_key.get(&refk) {
+                Some(&ro) if ro < plain.len() && first_on_line(ro) => {
+                    let rl = line_of(out, plain[ro].content_start());
+                    Some(rl.indent.len())
+                }
+                _ => None,
+            }
+        };
+        let Some(base) = base else {
+            skipped += 1;
+            continue;
+        };
+        let want = if refk == 0 { 0 } else { base + delta * unit };
+        checked += 1;
+        if li.indent.len() != want {
+            res.push(Viol { prop: "C05", clause: "depth", detail: format!("{what} {:?} (plain token {ord}) is indented {} but its block opener's line is indented {base} (expected {want}): {:?}", tok.text(out), li.indent.len(), context(out, tok.content_start())) });
+        }
+    }
+    (res, checked, skipped)
+}
+
+pub fn context(s: &str, pos: usize) -> String {
+    let mut a = pos.saturating_sub(60);
+    while !s.is_char_boundary(a) {
+        a -= 1;
+    }
+    let mut b = (pos + 40).min(s.len());
+    while !s.is_char_boundary(b) {
+        b += 1;
+    }
+    s[a..b].to_string()
+}
+
+// ---------------------------------------------------------------- C12: multi-line literals
+
+pub fn c12(text: &str, tin: &[Tok], out: &str, tout: &[Tok], cfg: &Cfg, verbatim: &[bool]) -> (Vec<Viol>, u64) {
+    let mut res = vec![];
+    let a: Vec<&Tok> = tin.iter().filter(|t| t.kind == "TextLiteral(MultiLine)").collect();
+    let b: Vec<&Tok> = tout.iter().filter(|t| t.kind == "TextLiteral(MultiLine)").collect();
+    if a.len() != b.len() {
+        if !a.is_empty() {
+            res.push(Viol { prop: "C12", clause: "literal_count", detail: format!("{} multi-line literals in the input, {} in the output", a.len(), b.len()) });
+        }
+        return (res, 0);
+    }
+    let nl = cfg.nl();
+    let mut n = 0;
+    for (k, (x, y)) in a.iter().zip(&b).enumerate() {
+        let (tx, ty) = (x.text(text), y.text(out));
+        n += 1;
+        let qualifies = ml_value(tx).is_some();
+        let in_region = verbatim.get(k).copied().unwrap_or(false);
+        if !(qualifies && cfg.format_multiline_strings) || in_region {
+            if tx != ty {
+                res.push(Viol { prop: "C12", clause: "verbatim", detail: format!("literal {k} must be reproduced byte for byte ({}): {:?} -> {:?}", if in_region { "inside a verbatim region" } else if qualifies { "format_multiline_strings=false" } else { "indentation rule not met" }, tx, ty) });
+            }
+            continue;
+        }
+        match ml_value(ty) {
+            Some(v) if Some(&v) == ml_value(tx).as_ref() => {}
+            other => {
+                res.push(Viol { prop: "C12", clause: "value", detail: format!("literal {k}: value {:?} -> {:?}", ml_value(tx), other) });
+                continue;
+            }
+        }
+        // indentation of the opening quotes' line, interior lines, closing quotes; terminators
+        let li = line_of(out, y.content_start());
+        let opening_first = out[li.start..y.content_start()].chars().all(|c| c == ' ' || c == '\t');
+        let lines = ml_lines(ty);
+        let quotes_only = |s: &str| s.chars().all(|c| c == '\'');
+        if opening_first {
+            for (j, l) in lines.iter().enumerate().skip(1) {
+                let last = j + 1 == lines.len();
+                let ok = if last {
+                    l.strip_prefix(li.indent.as_str()).is_some_and(quotes_only)
+                } else {
+                    l.is_empty() || l.starts_with(li.indent.as_str())
+                };
+                if !ok {
+                    res.push(Viol { prop: "C12", clause: "indentation", detail: format!("literal {k}: line {j} {:?} is not indented like the opening quotes' line ({:?})", l, li.indent) });
+                    break;
+                }
+            }
+        }
+        let body_wo_nl = ty.replace(nl, "");
+        if body_wo_nl.contains('\n') || body_wo_nl.contains('\r') {
+            res.push(Viol { prop: "C12", clause: "terminators", detail: format!("literal {k}: interior terminators are not all the configured one: {:?}", ty) });
+        }
+    }
+    (res, n)
+}
